@@ -181,6 +181,7 @@ Definition setcell (W : world) (b a : nat) (x : elt) : world :=
 Section Cplx.
 Variable cplx : bool.      (* element type is complex: the Hermitian element type conjugates *)
 Variable esz : nat.        (* scalars per element *)
+Variable repaired : bool.  (* the source has MatrixHelper::resizeOwnerOutOfVectorRep (patches/C25_owner_vector_helper_resize.diff) *)
 
 (** what the element type of the handle makes of the stored scalars (and, being an involution, what it stores for a value) *)
 Definition adapt (v : view) (e : elt) : elt :=
@@ -253,12 +254,18 @@ Definition deep_copy (W : world) (v : view) (negate : bool) : world * view :=
 
 (** MatrixHelperRep::resize(m,n,keep) on an owner: the concrete helper is KEPT (resize_/resizeKeep_ are virtuals of the
     helper the owner happens to have); a vector helper just allocates m*n elements *)
+(** with the repair: an owner with a vector helper that is given a shape with m <> 1 and n <> 1 gets a fresh full,
+    column-ordered helper (resizeOwnerOutOfVectorRep) *)
+Definition leaves_vector_helper (h : helper) (m n : nat) : bool :=
+  repaired && negb (m =? 1) && negb (n =? 1) && match h with HFull _ _ => false | _ => true end.
 Definition resize_helper (h : helper) (m n : nat) : helper :=
+  if leaves_vector_helper h m n then HFull false m else
   match h with HFull false _ => HFull false m | HFull true _ => HFull true n | other => other end.
 Definition size_ok (sh : shape) (m n : nat) : bool :=
   match sh with SMat => true | SVec => n =? 1 | SRow => m =? 1 end.
 Definition kept_cells (W : world) (v : view) (m n : nat) (keep : bool) : buffer :=
   let old i j := if keep && (i <? v_nr v) && (j <? v_nc v) then cell W (v_buf v) (vaddr v i j) else [] in
+  if leaves_vector_helper (v_h v) m n then map (fun k => old (k mod m) (k / m)) (seq 0 (m * n)) else
   match v_h v with
   | HFull false _ => map (fun k => old (k mod m) (k / m)) (seq 0 (m * n))
   | HFull true _ => map (fun k => old (k / n) (k mod n)) (seq 0 (m * n))
